@@ -138,18 +138,18 @@ def decide(pid, tier, seed):
     # distinct, non-trivial solver-decided cases: harness-level assertions + reachability covers (Kani),
     # obligation queries (SMT) – counted only in discharged obligations
     distinct = sum(int(o.get("user_asserts") or 0) + len(o.get("covers") or []) if o.get("engine") == "kani"
-                   else int(o.get("queries") or 0) for o in discharged)
+                   else int(o.get("obligation_queries") or o.get("queries") or 0) for o in discharged)
     samples = []
     for o in obls[:40]:
         samples.append({k: o.get(k) for k in ("id", "engine", "status", "doc", "bounds", "time_s", "solver_s",
-                                              "cbmc_properties", "user_asserts", "queries", "detail", "covers", "failed", "replay")
+                                              "cbmc_properties", "user_asserts", "queries", "obligation_queries", "paths", "truncated_paths", "cvc5_cross_checked_queries", "detail", "covers", "failed", "replay")
                         if o.get(k) not in (None, "", [])})
     coverage = {
         "evaluations": max(queries, 1) if obls else 0,
         "distinct_nontrivial": distinct,
         "rule": "one evaluation = one solver-decided verification condition (CBMC property incl. Kani's automatic "
                 "overflow/bounds/pointer checks, or one SMT query); distinct_nontrivial counts only the harness-level "
-                "assertions and reachability covers (Kani) resp. the obligation queries (SMT) that state the property – automatic checks excluded – in discharged obligations",
+                "assertions and reachability covers (Kani) resp. the entailment/trace-shape queries of the SMT obligations (path-feasibility queries are counted as evaluations only) that state the property – automatic checks excluded – in discharged obligations",
         "samples": samples,
         "obligations": len(obls),
         "discharged": len(discharged),
